@@ -4,6 +4,8 @@ mod rolling_buffer;
 mod summary;
 
 pub(crate) use self::queue::MemQueue;
+#[cfg(mrecordlog_verif)]
+pub(crate) use self::queue::RECORD_META_SIZE;
 pub(crate) use self::queues::MemQueues;
 pub use self::summary::{QueueSummary, QueuesSummary};
 
